@@ -35,7 +35,7 @@ import (
 // Opt is an abstract programmatic option. Kind is one of "endpoint" (WithEndpoint), "endpointURL"
 // (WithEndpointURL), "urlPath" (WithURLPath), "headers" (WithHeaders), "compression"
 // (WithCompression / WithCompressor; S is "gzip", "none" or an unsupported name) and "timeout"
-// (WithTimeout).
+// (WithTimeout); "insecure" is WithInsecure (jobs "order" only).
 type Opt struct {
 	Kind string            `json:"kind"`
 	S    string            `json:"s,omitempty"`
@@ -51,6 +51,7 @@ type Resolved struct {
 	Compression string            `json:"compression"` // "gzip" or "none"
 	Timeout     time.Duration     `json:"timeout"`
 	AltPath     string            `json:"alt_path,omitempty"` // a second admitted path (an option URL without a path: the signal default, or "/")
+	Scheme      string            `json:"scheme,omitempty"`   // reference only, job "order", HTTP exporters: the scheme an OPTION asks for ("" = not judged)
 }
 
 // Obs is what an exporter harness reports for one configuration point.
@@ -95,6 +96,10 @@ type Alt struct {
 	Headers                                           map[string]string
 	Comp                                              string
 	Timeout                                           time.Duration
+	// option alternatives of job "order" only: the scheme the option list asks for (WithInsecure:
+	// "http"; WithEndpointURL: the URL's scheme; the last of them wins)
+	HasScheme bool
+	Scheme    string
 }
 
 // Group is one setting group: the sources that can provide it.
@@ -324,6 +329,8 @@ type run struct {
 	// contains one of them and fails on the same setting is folded into its key without being
 	// minimised again (the enumeration is simplest-first, so minimal ones come early)
 	known map[string][]knownMin
+	// job "order": the option lists of the groups are handed over last group first
+	reverse bool
 }
 
 type knownMin struct {
@@ -375,6 +382,9 @@ func (x *run) expect(c kase) Resolved {
 				want.Host = s.Host
 			case g.HasHost:
 				want.Host = g.Host
+			}
+			if o.HasScheme {
+				want.Scheme = o.Scheme
 			}
 			switch {
 			case o.HasPath:
@@ -451,7 +461,11 @@ func (x *run) apply(c kase) []Opt {
 				os.Unsetenv(v.name)
 			}
 		}
-		opts = append(opts, o.Opts...)
+		if x.reverse {
+			opts = append(append([]Opt{}, o.Opts...), opts...)
+		} else {
+			opts = append(opts, o.Opts...)
+		}
 	}
 	return opts
 }
@@ -531,6 +545,9 @@ func (x *run) eval(c kase) (Obs, []mismatch) {
 		return obs, mm
 	}
 	cmp("wire-", obs.Wire, true)
+	if x.e.HTTP && want.Scheme != "" && obs.Scheme != want.Scheme+"://" {
+		mm = append(mm, mismatch{"wire-scheme", fmt.Sprintf("request sent with %q, the options ask for %q", obs.Scheme, want.Scheme+"://")})
+	}
 	if x.e.HTTP && obs.BodyGzip != (obs.Wire.Compression == "gzip") {
 		mm = append(mm, mismatch{"wire-body", fmt.Sprintf("Content-Encoding %s but gzip body=%v", obs.Wire.Compression, obs.BodyGzip)})
 	}
@@ -618,6 +635,9 @@ func (x *run) describe(c kase, setting string) (key string, full map[string]any)
 	}
 	if len(parts) == 0 {
 		parts = []string{"all sources absent"}
+	}
+	if x.reverse {
+		parts = append(parts, "(option lists in reverse group order)")
 	}
 	return strings.Join(parts, " "), full
 }
@@ -774,7 +794,7 @@ func Main(e *Exporter) {
 	} else {
 		names = append(names, "pairs")
 	}
-	names = append(names, "history:endpoint")
+	names = append(names, "history:endpoint", "order", "foreign")
 	enum.Jobs(names, func(job string) {
 		r := enum.Start("C20", e.Name)
 		defer r.Finish()
@@ -843,6 +863,10 @@ func Main(e *Exporter) {
 					x.one(b)
 				}
 			}
+		case job == "order":
+			x.order()
+		case job == "foreign":
+			x.foreign()
 		case job == "pairs":
 			// every pair of setting groups over {absent, valid, invalid} per source
 			for a := 0; a < len(x.groups); a++ {
@@ -870,6 +894,347 @@ func Main(e *Exporter) {
 			x.product([]int{1, 2, 3}, true, map[int]pick{0: coarseTriples(x.groups[0])[i]})
 		}
 	})
+}
+
+// ---------------------------------------------------------------------------- job "order"
+
+// orderGroups is the alphabet of job "order": per setting group, option LISTS in which two
+// options write the same field, in both orders, next to the single options they are made of;
+// every environment source is {absent, valid[, valid(https)]}. The documented rule ("If both this
+// option and WithEndpointURL are used, the last used option will take precedence"; an option
+// that is passed takes precedence over the variables) is spelled out per list by hand:
+// the declared meaning of a list is what its LAST writer of each field says.
+// WithEndpointURL writes host, path and scheme ("sets the target endpoint URL (scheme, host, port,
+// path)"), WithEndpoint the host only, WithURLPath the path only, WithInsecure the scheme only; an
+// unparsable WithEndpointURL writes nothing ("the default value will be kept"). WithHeaders /
+// WithCompression / WithTimeout replace the value of an earlier call.
+// The scheme is judged (HTTP exporters, at the transport seam) only when an option writes it.
+func orderGroups(e *Exporter) []*Group {
+	port := "4317"
+	if e.HTTP {
+		port = "4318"
+	}
+	h := func(n string) string { return n + ".example:" + port }
+	path := func(p string) string {
+		if e.HTTP {
+			return p
+		}
+		return ""
+	}
+	type w struct { // one option and what it writes
+		name               string
+		opt                Opt
+		host, path, scheme string
+		wHost, wPath       bool
+	}
+	ep := w{name: "WithEndpoint", opt: Opt{Kind: "endpoint", S: h("o1")}, host: h("o1"), wHost: true}
+	ep2 := w{name: "WithEndpoint(2nd)", opt: Opt{Kind: "endpoint", S: h("o5")}, host: h("o5"), wHost: true}
+	up := w{name: "WithURLPath", opt: Opt{Kind: "urlPath", S: "/opt/path"}, path: "/opt/path", wPath: true}
+	up2 := w{name: "WithURLPath(2nd)", opt: Opt{Kind: "urlPath", S: "/opt/two"}, path: "/opt/two", wPath: true}
+	eu := w{name: "WithEndpointURL", opt: Opt{Kind: "endpointURL", S: "http://" + h("o2") + path("/ou/path")}, host: h("o2"), path: "/ou/path", scheme: "http", wHost: true, wPath: true}
+	eus := w{name: "WithEndpointURL(https)", opt: Opt{Kind: "endpointURL", S: "https://" + h("o3") + path("/ou3")}, host: h("o3"), path: "/ou3", scheme: "https", wHost: true, wPath: true}
+	bad := w{name: "WithEndpointURL(invalid)", opt: Opt{Kind: "endpointURL", S: badURL1}}
+	ins := w{name: "WithInsecure", opt: Opt{Kind: "insecure"}, scheme: "http"}
+	var epAlts []Alt
+	index := map[string]int{}
+	seq := func(coarse int, ws ...w) {
+		a := Alt{Coarse: coarse}
+		var names []string
+		for _, o := range ws {
+			names = append(names, o.name)
+			a.Opts = append(a.Opts, o.opt)
+			if o.wHost {
+				a.HasHost, a.Host = true, o.host
+			}
+			if o.wPath && e.HTTP {
+				a.HasPath, a.Path = true, o.path
+			}
+			if o.scheme != "" {
+				a.HasScheme, a.Scheme = true, o.scheme
+			}
+			if len(ws) > 1 {
+				a.Reduce = append(a.Reduce, index[o.name])
+			}
+		}
+		a.Class = strings.Join(names, ",")
+		index[a.Class] = len(epAlts) + 1
+		epAlts = append(epAlts, a)
+	}
+	for _, o := range []w{ep, ep2, eu, eus, bad, ins} {
+		seq(1, o)
+	}
+	both := func(a, b w) { seq(-1, a, b); seq(-1, b, a) }
+	both(ep, ep2)
+	both(eu, eus)
+	both(ep, eu) // also part of the "single:endpoint" alphabet; here with the https variables and the scheme
+	both(ep, eus)
+	both(ins, eus)
+	both(ins, eu)
+	both(ins, ep)
+	both(ep, bad)
+	both(eu, bad)
+	both(eus, bad)
+	if e.HTTP {
+		seq(1, up)
+		seq(1, up2)
+		both(up, up2)
+		both(up, eu)
+		both(up, eus)
+		both(up, ep)
+		both(up, bad)
+		both(up, ins)
+		// three writers: the URL in every position
+		seq(-1, eu, ep, up)
+		seq(-1, ep, eu, up)
+		seq(-1, ep, up, eu)
+		seq(-1, eus, ins, up)
+		seq(-1, ins, up, eus)
+	}
+	g0 := &Group{Name: "endpoint", EnvSuffix: "ENDPOINT", Settings: []string{"endpoint"}, Opt: append([]Alt{absent}, epAlts...)}
+	if e.HTTP {
+		g0.Settings = []string{"endpoint", "path", "scheme"}
+	}
+	mk := func(p string) []Alt {
+		return []Alt{absent,
+			envURL("valid", 1, "http://"+h(p+"1")+path("/"+p+"/path"), h(p+"1"), path("/"+p+"/path")),
+			envURL("valid(https)", -1, "https://"+h(p+"3")+path("/"+p+"3"), h(p+"3"), path("/"+p+"3"))}
+	}
+	g0.Spec, g0.Gen = mk("s"), mk("g")
+
+	g1 := &Group{Name: "headers", EnvSuffix: "HEADERS", Settings: []string{"headers"}}
+	hs := []map[string]string{{"k1": "o1"}, {"k2": "o2"}, {"k1": "o9", "k3": "o3"}}
+	hn := []string{"WithHeaders(k1)", "WithHeaders(k2)", "WithHeaders(k1,k3)"}
+	g1.Opt = []Alt{absent}
+	for i := range hs {
+		g1.Opt = append(g1.Opt, Alt{Class: hn[i], Coarse: 1, Opts: []Opt{{Kind: "headers", H: hs[i]}}, HasHeaders: true, Headers: hs[i]})
+	}
+	for i := range hs {
+		for j := range hs {
+			if i != j { // the later map REPLACES the earlier one (disjoint keys: k1 / k2; overlapping: k1 / k1,k3)
+				g1.Opt = append(g1.Opt, Alt{Class: hn[i] + "," + hn[j], Coarse: -1, Opts: []Opt{{Kind: "headers", H: hs[i]}, {Kind: "headers", H: hs[j]}},
+					HasHeaders: true, Headers: hs[j], Reduce: []int{i + 1, j + 1}})
+			}
+		}
+	}
+	eh := func(p string) []Alt {
+		return []Alt{absent, {Class: "valid", Coarse: 1, Set: true, Env: "k1=" + p + "1,k" + p + "=" + p + "2", HasHeaders: true, Headers: map[string]string{"k1": p + "1", "k" + p: p + "2"}}}
+	}
+	g1.Spec, g1.Gen = eh("s"), eh("g")
+
+	g2 := &Group{Name: "compression", EnvSuffix: "COMPRESSION", Settings: []string{"compression"}}
+	oc := func(class string, coarse int, means string, red []int, names ...string) Alt {
+		a := Alt{Class: class, Coarse: coarse, HasComp: true, Comp: means, Reduce: red}
+		for _, n := range names {
+			a.Opts = append(a.Opts, Opt{Kind: "compression", S: n})
+		}
+		return a
+	}
+	g2.Opt = []Alt{absent, oc("valid(gzip)", 1, "gzip", nil, "gzip"), oc("valid(none)", 1, "none", nil, "none"),
+		oc("gzip,none", -1, "none", []int{1, 2}, "gzip", "none"), oc("none,gzip", -1, "gzip", []int{1, 2}, "none", "gzip"),
+		oc("gzip,none,gzip", -1, "gzip", []int{4, 1}, "gzip", "none", "gzip")}
+	ec := func() []Alt {
+		return []Alt{absent, {Class: "valid(gzip)", Coarse: 1, Set: true, Env: "gzip", HasComp: true, Comp: "gzip"},
+			{Class: "valid(none)", Coarse: -1, Set: true, Env: "none", HasComp: true, Comp: "none"}}
+	}
+	g2.Spec, g2.Gen = ec(), ec()
+
+	g3 := &Group{Name: "timeout", EnvSuffix: "TIMEOUT", Settings: []string{"timeout"}}
+	ot := func(class string, coarse int, red []int, ds ...time.Duration) Alt {
+		a := Alt{Class: class, Coarse: coarse, HasTimeout: true, Timeout: ds[len(ds)-1], Reduce: red}
+		for _, d := range ds {
+			a.Opts = append(a.Opts, Opt{Kind: "timeout", D: d})
+		}
+		return a
+	}
+	g3.Opt = []Alt{absent, ot("WithTimeout(5s)", 1, nil, 5*time.Second), ot("WithTimeout(17s)", 1, nil, 17*time.Second), ot("WithTimeout(default)", -1, nil, defaultTimeout),
+		ot("WithTimeout(5s),WithTimeout(17s)", -1, []int{1, 2}, 5*time.Second, 17*time.Second),
+		ot("WithTimeout(17s),WithTimeout(5s)", -1, []int{1, 2}, 17*time.Second, 5*time.Second),
+		// a later call with exactly the default still overrides the earlier call (and the variables)
+		ot("WithTimeout(5s),WithTimeout(default)", -1, []int{1, 3}, 5*time.Second, defaultTimeout),
+		ot("WithTimeout(default),WithTimeout(5s)", -1, []int{1, 3}, defaultTimeout, 5*time.Second)}
+	et := func(lit string, d time.Duration) []Alt {
+		return []Alt{absent, {Class: "valid", Coarse: 1, Set: true, Env: lit, HasTimeout: true, Timeout: d}}
+	}
+	g3.Spec, g3.Gen = et("29000", 29*time.Second), et("53000", 53*time.Second)
+	return []*Group{g0, g1, g2, g3}
+}
+
+// order runs job "order": (1) per setting group the full product option list x specific x
+// generic, (2) every pair of groups over the single options x {absent, valid} variables with the
+// option lists handed over in both group orders (an option of one group between / after the
+// options of another must not disturb it).
+func (x *run) order() {
+	r := x.r
+	x.groups = orderGroups(x.e)
+	for _, g := range x.groups {
+		r.Bound("order_"+g.Name+"_alternatives(option lists,specific,generic)", []int{len(g.Opt), len(g.Spec), len(g.Gen)})
+		var lists []string
+		for _, a := range g.Opt[1:] {
+			lists = append(lists, a.Class)
+		}
+		r.Bound("order_"+g.Name+"_option_lists", lists)
+	}
+	for gi, g := range x.groups {
+		r.Section("order:" + g.Name)
+		x.product([]int{gi}, false, nil)
+	}
+	for _, rev := range []bool{false, true} {
+		x.reverse = rev
+		x.known = nil
+		for a := 0; a < len(x.groups); a++ {
+			for b := a + 1; b < len(x.groups); b++ {
+				r.Section(fmt.Sprintf("order:%sx%s reverse=%v", x.groups[a].Name, x.groups[b].Name, rev))
+				x.product([]int{a, b}, true, nil)
+			}
+		}
+	}
+	x.reverse = false
+}
+
+// ---------------------------------------------------------------------------- job "foreign"
+
+type foreignVar struct{ name, value string }
+
+// foreignVars lists variables that are not a source of this exporter's five settings: the
+// signal-specific variables of the two other signals, OTLP variables the Go exporters do not
+// implement, near misses of the real names, variables of other exporters and of the SDK
+// processors. Every value would be visible in the resolved configuration if it were read.
+func foreignVars(e *Exporter) []foreignVar {
+	var out []foreignVar
+	vals := map[string][]string{
+		"ENDPOINT":    {"http://f1.example:9999/f/path", "https://f2.example:9999/f2"},
+		"HEADERS":     {"kf=foreign,k1=foreign"},
+		"COMPRESSION": {"gzip", "none"},
+		"TIMEOUT":     {"77000"},
+		"INSECURE":    {"true", "false"},
+		"PROTOCOL":    {"http/json"},
+	}
+	suffixes := []string{"ENDPOINT", "HEADERS", "COMPRESSION", "TIMEOUT", "INSECURE", "PROTOCOL"}
+	add := func(name, suffix string) {
+		for _, v := range vals[suffix] {
+			out = append(out, foreignVar{name, v})
+		}
+	}
+	singular := map[string]string{"TRACES": "TRACE", "METRICS": "METRIC", "LOGS": "LOG"}
+	for _, sig := range []string{"TRACES", "METRICS", "LOGS"} {
+		for _, suf := range suffixes {
+			if sig != e.Signal {
+				add("OTEL_EXPORTER_OTLP_"+sig+"_"+suf, suf)
+			}
+		}
+	}
+	for _, suf := range suffixes[:4] {
+		add("OTEL_EXPORTER_OTLP_"+singular[e.Signal]+"_"+suf, suf)        // near miss: singular signal name
+		add("OTEL_EXPORTER_"+e.Signal+"_"+suf, suf)                       // near miss: no protocol
+		add("OTEL_EXPORTER_"+suf, suf)                                    // near miss: neither
+		add("OTEL_OTLP_"+suf, suf)                                        // near miss
+		add(strings.ToLower("OTEL_EXPORTER_OTLP_"+e.Signal+"_"+suf), suf) // variable names are case sensitive
+		add("OTEL_EXPORTER_OTLP_"+e.Signal+"_"+suf+"S", suf)              // near miss: trailing letter
+	}
+	add("OTEL_EXPORTER_OTLP_PROTOCOL", "PROTOCOL")
+	add("OTEL_EXPORTER_OTLP_"+e.Signal+"_PROTOCOL", "PROTOCOL")
+	add("OTEL_EXPORTER_ZIPKIN_ENDPOINT", "ENDPOINT")
+	add("OTEL_EXPORTER_ZIPKIN_TIMEOUT", "TIMEOUT")
+	add("OTEL_EXPORTER_JAEGER_ENDPOINT", "ENDPOINT")
+	add("OTEL_EXPORTER_JAEGER_TIMEOUT", "TIMEOUT")
+	for _, n := range []string{"OTEL_BSP_EXPORT_TIMEOUT", "OTEL_BLRP_EXPORT_TIMEOUT", "OTEL_METRIC_EXPORT_TIMEOUT", "OTEL_BSP_SCHEDULE_DELAY", "OTEL_METRIC_EXPORT_INTERVAL"} {
+		add(n, "TIMEOUT")
+	}
+	return out
+}
+
+// foreignOutcome is everything judged about one observation except the request deadline.
+func foreignOutcome(o Obs) string {
+	return fmt.Sprintf("%s wire=%v calls=%d gzipbody=%v", outcome(o), o.HasWire, o.WireCalls, o.BodyGzip)
+}
+
+// foreign runs job "foreign": for a handful of base configurations (nothing set; every
+// setting from the signal-specific variables / the generic variables / both / options), every
+// foreign variable alone and all of them at once: the observation (resolved configuration, wire
+// request) must be the one of the base configuration with the variable unset.
+func (x *run) foreign() {
+	r := x.r
+	fv := foreignVars(x.e)
+	var names []string
+	for _, v := range fv {
+		if len(names) == 0 || names[len(names)-1] != v.name {
+			names = append(names, v.name)
+		}
+	}
+	r.Bound("foreign_variables", names)
+	r.Bound("foreign_variable_values", len(fv))
+	first := func(lst []Alt) int {
+		for i, a := range lst {
+			if a.Coarse == 1 {
+				return i
+			}
+		}
+		panic("alphabet without a valid class")
+	}
+	base := func(o, s, g bool) kase {
+		c := kase{picks: make([]*pick, len(x.groups))}
+		for gi, grp := range x.groups {
+			p := &pick{}
+			if o {
+				p.opt = first(grp.Opt)
+			}
+			if s {
+				p.spec = first(grp.Spec)
+			}
+			if g {
+				p.gen = first(grp.Gen)
+			}
+			c.picks[gi] = p
+		}
+		return c
+	}
+	bases := []kase{base(false, false, false), base(false, true, false), base(false, false, true), base(false, true, true), base(true, false, false), base(true, true, true)}
+	r.Bound("foreign_base_configurations", []string{"all absent", "specific=valid", "generic=valid", "specific+generic", "options", "options+specific+generic"})
+	for bi, b := range bases {
+		r.Section(fmt.Sprintf("foreign:base%d", bi))
+		obs0, _ := x.eval(b)
+		out0 := foreignOutcome(obs0)
+		_, bfull := x.describe(b, "")
+		check := func(set []foreignVar, keyName string) {
+			if r.Expired() || !r.Want() {
+				return
+			}
+			r.Count("configuration_points", 1)
+			for _, v := range set {
+				os.Setenv(v.name, v.value)
+			}
+			obs, _ := x.eval(b)
+			for _, v := range set {
+				os.Unsetenv(v.name)
+			}
+			out := foreignOutcome(obs)
+			r.Outcome(out)
+			env := map[string]string{}
+			for _, v := range set {
+				env[v.name] = v.value
+			}
+			cas := map[string]any{"exporter": x.e.Name, "base_configuration": bfull, "foreign": env, "resolved": obs.Cfg, "wire": obs.Wire,
+				"resolved_without": obs0.Cfg, "wire_without": obs0.Wire}
+			r.Sample(func() any { return cas })
+			switch {
+			case out != out0:
+				r.FailHere("foreign|"+x.e.Name+"|"+keyName, cas, "%s: setting %v changes the exporter: %s, without it %s", x.e.Name, env, out, out0)
+			case obs.HasWire && !obs.NoDeadline && (obs.Wire.Timeout > obs0.Cfg.Timeout || obs.Wire.Timeout < obs0.Cfg.Timeout-obs.Elapsed-time.Millisecond):
+				r.FailHere("foreign|"+x.e.Name+"|"+keyName, cas, "%s: setting %v changes the request deadline: %v away %v after the start of the case, timeout without it %v",
+					x.e.Name, env, obs.Wire.Timeout, obs.Elapsed, obs0.Cfg.Timeout)
+			}
+		}
+		for _, v := range fv {
+			check([]foreignVar{v}, v.name)
+		}
+		var all []foreignVar // all at once: the first value of every name
+		for i, v := range fv {
+			if i == 0 || fv[i-1].name != v.name {
+				all = append(all, v)
+			}
+		}
+		check(all, "all foreign variables at once")
+	}
 }
 
 // ---------------------------------------------------------------------------- scripted HTTP seam
